@@ -160,6 +160,32 @@ Proof.
 Qed.
 Print Assumptions C05n_single_controlled_gate_circuit.
 
+(** gates that were analysed one by one, each under ITS OWN data dictionary d_k (as C06 does), form a
+    circuit: give gate k of N the datarefs r*N + k ([retag], the references are opaque dictionary keys -
+    distinct strings in qib) and look entry z of the common dictionary up in d_(z mod N) at z / N.  Then
+    clause (d) holds for ANY list of such gates - no hypothesis about a common dictionary is left. *)
+Theorem C05n_circuit_of_separately_analysed_gates :
+  forall (K : Scalar) (L : ScalarLaws K) nw (specs : list (ngate * BMx K * (Z -> list nat -> K))) cnet,
+    Forall (fun s => let '(g, G, d) := s in
+                     wires_ok nw (ng_wires g) /\ net_is_matrix d (length (ng_wires g)) (ng_net g) G) specs ->
+    circuit_net nw (map fst (tagged_gates specs)) = Some cnet ->
+    net_is_matrix (common_data (map snd specs)) nw cnet (cmat nw (circuit_of (tagged_gates specs))) /\
+    map (@g_wires K) (circuit_of (tagged_gates specs)) = map (fun s => ng_wires (fst (fst s))) specs /\
+    map (@g_mat K) (circuit_of (tagged_gates specs)) = map (fun s => snd (fst s)) specs.
+Proof.
+  intros K L nw specs cnet H Hc. split; [|split].
+  - apply circuit_net_is_matrix; [apply gates_sem_tagged; exact H | exact Hc].
+  - transitivity (map (fun s : ngate * BMx K * (Z -> list nat -> K) => ng_wires (fst (fst s)))
+                      (map snd (combine (seq 0 (length specs)) specs)));
+      [|rewrite combine_map_snd by (rewrite seq_length; reflexivity); reflexivity].
+    unfold circuit_of, tagged_gates. rewrite !map_map. apply map_ext. intros [k [[g G] d]]. reflexivity.
+  - transitivity (map (fun s : ngate * BMx K * (Z -> list nat -> K) => snd (fst s))
+                      (map snd (combine (seq 0 (length specs)) specs)));
+      [|rewrite combine_map_snd by (rewrite seq_length; reflexivity); reflexivity].
+    unfold circuit_of, tagged_gates. rewrite !map_map. apply map_ext. intros [k [[g G] d]]. reflexivity.
+Qed.
+Print Assumptions C05n_circuit_of_separately_analysed_gates.
+
 (** the hypotheses are satisfiable on a non-trivial instance: CNOT with control wire 2 and target
     wire 0 on a 3-wire register (wire 1 idle): the model accepts, and so does the simulator's merge *)
 Example C05n_example :
